@@ -181,6 +181,59 @@ def run(repo: Repo, rep: Report, tier: str) -> None:
     imm = any(kwarg(c, "is_mutable") is not None and norm(kwarg(c, "is_mutable")) == "False" and "iterator_name" in norm(kwarg(c, "name") or ast.Constant(value="")) for c in syms)
     rep.check(imm, "C16-R3", "the iterator is defined immutable", "Symbol(..., is_mutable=False)" if imm else "iterator symbol is mutable", vf.loc(syms[0]) if syms else vf.loc())
 
+    # ---------------- R6 ---------------------------------------------------------------
+    rep.rule("C16-R6", "the loop body is one syntax tree shared by all iterations: when the analyzer replaces a constructor field of a node it visits, the replacement must be a "
+             "function of the syntax alone (a helper that reads scope/symbol state would freeze the first iteration's value into every copy)")
+    an_cls = repo.cls("SemanticAnalyzer")
+    ast_mods = [m for m in repo.modules.values() if ".src.ast." in m.name + "."]
+    ctor_fields: dict[str, set[str]] = {}
+    for m_ in ast_mods:
+        for c_ in m_.classes.values():
+            init = c_.methods.get("__init__")
+            if init is not None:
+                ctor_fields[c_.name] = {p_ for p_ in init.params if p_ not in ("self", "line", "column", "raw_text")}
+    all_fields = set().union(*ctor_fields.values()) if ctor_fields else set()
+    rep.floor("C16-R6", "syntax-tree classes with constructor fields", len(ctor_fields), 20)
+
+    def tree_pure(fn: Func, seen: set[str]) -> tuple[bool, str]:
+        if fn.qual in seen:
+            return True, ""
+        seen.add(fn.qual)
+        for n_ in walk_local(fn.node):
+            if isinstance(n_, ast.Attribute) and isinstance(n_.value, ast.Name) and n_.value.id == "self":
+                callee = an_cls.methods.get(n_.attr)
+                if callee is not None:
+                    ok_, why_ = tree_pure(callee, seen)
+                    if not ok_:
+                        return False, why_
+                    continue
+                return False, f"{fn.short} reads self.{n_.attr}"
+        return True, ""
+
+    n_rw = 0
+    for m_ in an_cls.methods.values():
+        if not m_.name.startswith("visit_"):
+            continue
+        node_params = [p_ for p_ in m_.params if p_ != "self"]
+        du_m = DefUse(m_)
+        for n_ in walk_local(m_.node):
+            if isinstance(n_, ast.Assign) and isinstance(n_.targets[0], ast.Attribute) and isinstance(n_.targets[0].value, ast.Name) and n_.targets[0].value.id in node_params \
+                    and n_.targets[0].attr in all_fields:
+                n_rw += 1
+                helpers = [c_ for v_ in [n_.value] + du_m.expand(n_.value) for c_ in ast.walk(v_) if isinstance(c_, ast.Call) and isinstance(c_.func, ast.Attribute) and isinstance(c_.func.value, ast.Name)
+                           and c_.func.value.id == "self" and c_.func.attr in an_cls.methods]
+                ok_, why_ = True, ""
+                for h_ in helpers:
+                    ok_, why_ = tree_pure(an_cls.methods[h_.func.attr], set())
+                    if not ok_:
+                        break
+                direct = [x_ for v_ in [n_.value] + du_m.expand(n_.value) for x_ in ast.walk(v_) if isinstance(x_, ast.Attribute) and isinstance(x_.value, ast.Name) and x_.value.id == "self" and x_.attr not in an_cls.methods]
+                if direct:
+                    ok_, why_ = False, f"value reads self.{direct[0].attr}"
+                rep.check(ok_, "C16-R6", f"{m_.short} replaces .{n_.targets[0].attr} of the shared node by a function of the syntax only",
+                          f"via {[h_.func.attr for h_ in helpers]}" if ok_ else f"{why_}: the rewritten node is reused by every later iteration of an enclosing loop (and by every inlined call)", m_.loc(n_))
+    rep.floor("C16-R6", "syntax-tree rewrites in the analyzer", n_rw, 1)
+
     # ---------------- R4 ---------------------------------------------------------------
     rep.rule("C16-R4", "ids registered by declarations in a loop body are fresh per iteration (ir_builder.next_id in the backward slice)")
     n_ids = 0
